@@ -167,6 +167,8 @@ static bool mtd_print(TickitTermDriver *ttd, const char *str, size_t len)
     if(pos.columns == start.columns)
       continue;
 
+    int width = pos.columns - start.columns;
+
     // Wrap but don't scroll - for now. This shouldn't cause scrolling anyway
     if(start.columns >= mtd->cols) {
       start.columns = 0;
@@ -186,9 +188,10 @@ static bool mtd_print(TickitTermDriver *ttd, const char *str, size_t len)
     cell->str = strndup(str + start.bytes, pos.bytes - start.bytes);
     cell->pen = tickit_pen_clone(mtd->pen);
 
-    // Empty out the other cells for doublewidth
-    for(start.columns++; start.columns < pos.columns; start.columns++) {
-      cell = linecells[start.columns];
+    // Empty out the other cells for doublewidth - those that exist: a double-width character
+    // printed at the last column has no second cell
+    for(int i = 1; i < width && start.columns + i < mtd->cols; i++) {
+      cell = linecells[start.columns + i];
 
       if(cell->str)
         free(cell->str);
